@@ -99,6 +99,13 @@ def check_case(ctx, cs):
         ok, got = _try(ctx, cname + ".derivatives", tg + (["order>degree"] if order > min(sh["deg"]) else []), small, lambda: obj.derivatives(*prm, order=order))
         if ok:
             check_table(ctx, cname + ".derivatives", tg, small, got, o, sh, pd, order)
+        # the documented span-search option: the derivatives (right-hand ones at a knot) are the same with the bisection search
+        from geomdl import helpers as _helpers
+        ok, objb = _try(ctx, cname + ".build", tg, small, lambda: build(sh, span_func=_helpers.find_span_binsearch))
+        if ok:
+            ok, got = _try(ctx, cname + ".derivatives", tg + ["find_span_func=binsearch"], small, lambda: objb.derivatives(*prm, order=order))
+            if ok:
+                check_table(ctx, cname + ".derivatives", tg + ["find_span_func=binsearch"], small, got, o, sh, pd, order)
         if not sh["rat"]:
             ev2 = evaluators.CurveEvaluator2() if pd == 1 else evaluators.SurfaceEvaluator2()
             ok, obj2 = _try(ctx, cname + ".build", tg, small, lambda: build(sh, evaluator=ev2))
